@@ -43,6 +43,14 @@ Theorem C05_all_histories : forall cfg h, exists s out, run cfg state_init h = O
 Proof. exact all_histories. Qed.
 Print Assumptions C05_all_histories.
 
+(* ... and still answers a PING (the model-level half of "does not stop processing"; the
+   real goroutines are observed by suite state.liveness) *)
+Theorem C05_ping_after_every_history : forall cfg h src tag ps,
+  exists s out s', run cfg state_init h = Ok (s, out) /\ Inv s /\
+    handle cfg s (ping_event src tag ps) = Ok (s', [OutSend s_PONG [last ps []]]) /\ Inv s'.
+Proof. exact ping_after_every_history. Qed.
+Print Assumptions C05_ping_after_every_history.
+
 (* the state mutators of state.go never dereference a missing entry and keep the invariant *)
 Theorem C05_delete_channel : forall s name, Inv s -> exists s', delete_channel s name = Ok s' /\ Inv s'.
 Proof. exact delete_channel_inv. Qed.
@@ -98,3 +106,15 @@ Theorem C05_perms_only_listed_refuted : exists s o, run ex_cfg state_init perms_
   ~ (forall ku u cn, alookup ku (st_users s) = Some u -> alookup cn (u_perms u) <> None -> In cn (u_chans u)).
 Proof. exact perms_only_listed_refuted. Qed.
 Print Assumptions C05_perms_only_listed_refuted.
+
+(* non-vacuity of the widened statement: a connected configuration (SASL PLAIN) and a history
+   through every stage; outputs by kind: WHO, MODE (state), a CTCP reply (the source-less
+   VERSION request gets none), CAP REQ, AUTHENTICATE <credential>, the queued ERROR *)
+Theorem C05_client_example :
+  Ctcp.connected (cc_env cex_cfg) = true /\
+  exists cs o, client_run cex_cfg (client_init StsState.sts_init) cex_history = Ok (cs, o) /\
+    Inv (cs_state cs) /\
+    List.map (fun x => match x with CSend _ => 1 | CSasl _ => 2 | CCap _ => 3 | CCtcp _ => 4 end) o = [1; 1; 4; 3; 2; 2] /\
+    client_disconnects cex_cfg (client_init StsState.sts_init) cex_history = Ok true.
+Proof. exact client_example. Qed.
+Print Assumptions C05_client_example.
